@@ -95,6 +95,10 @@ _public_ int m_mod_set_batch_size(m_mod_t *mod, size_t len) {
     M_MOD_CONSUME_TOKEN(mod);
     
     mod->batch.len = len;
+    if (len == 0 && mod->batch.timer.ns != 0) {
+        // Timed batching still enabled: same state as if the timeout had been set with no batch size
+        mod->batch.len = SIZE_MAX;
+    }
     return 0;
 }
 
